@@ -58,6 +58,8 @@ def ThOk (s : State K) : Th K → Prop
   | .dGetMeta _ => True
   | .dDecGet _ _ => True
   | .dDecPut _ _ _ _ => True
+  | .tGetMeta _ => True
+  | .tPutMeta _ a => ∀ k ∈ a.chunks, (find k s.chunks).isSome
   | _ => False
 
 def Mono (s s' : State K) : Prop := ∀ k, (find k s.chunks).isSome → (find k s'.chunks).isSome
@@ -132,6 +134,18 @@ theorem stepTh_safe {s : State K} (hl : LiveP s) {th : Th K} (ht : ThOk h s th) 
   | dDecPut id k todo r =>
     simp only [stepTh]
     exact ⟨LiveP_chunks hl (mono_setRec s _ _), trivial, mono_setRec s _ _⟩
+  | tGetMeta id =>
+    simp only [stepTh]
+    cases hf : find id s.arts with
+    | none => exact ⟨hl, trivial, fun _ x => x⟩
+    | some a => exact ⟨hl, fun k hk => hl (id, a) (find_some_mem hf) k hk, fun _ x => x⟩
+  | tPutMeta id a =>
+    simp only [stepTh]
+    refine ⟨?_, trivial, fun _ x => x⟩
+    intro p hp k hk
+    rcases mem_setRec hp with hp | hp
+    · exact hl p hp k hk
+    · subst hp; exact ht k hk
   | gScan _ _ => exact absurd ht (by simp [ThOk])
   | gGet _ _ => exact absurd ht (by simp [ThOk])
   | gDel _ _ _ => exact absurd ht (by simp [ThOk])
